@@ -158,6 +158,28 @@ theorem newkeys_resets_outbound (s : St) (x : Ext) (he : s.err = none) (hs : s.a
     by_cases hn : x.needRekey = true <;>
       simp [St.send, St.andThen, he, hs, hext, hn, St.fail]
 
+/-- **Strict mode is for the life of the session (1).**  A re-exchange KEXINIT that carries no `kex-strict-*` name
+(what peers do that send the marker only in their first KEXINIT) leaves the agreed mode exactly as the initial
+exchange left it — so `newkeys_resets_inbound/outbound` keep applying to every later NEWKEYS. -/
+theorem rekey_without_marker_keeps_strict_mode (T : Tables) (hT : KexTables T) (s : St) (hact : s.active = true)
+    (he : s.err = none) (hdone : s.initialKexDone = true) (hexp : s.expected = []) (p : Bytes) (x : Ext)
+    (hnames : ∀ a ∈ x.kexNames, a.startsWith "kex-strict-" = false)
+    (hok : (step T s (.recv MSG_KEXINIT p x)).err = none) :
+    (step T s (.recv MSG_KEXINIT p x)).agreedStrict = s.agreedStrict := by
+  rw [rekey_kexinit_strict T hT s hact he hdone hexp p x hok]
+  exact scanMarkers_no_marker _ _ _ _ hnames
+
+/-- **Strict mode is for the life of the session (2).**  A re-exchange KEXINIT that repeats the expected marker
+keeps strict mode on. -/
+theorem rekey_with_marker_keeps_strict_mode (T : Tables) (hT : KexTables T) (s : St) (hact : s.active = true)
+    (he : s.err = none) (hdone : s.initialKexDone = true) (hexp : s.expected = []) (p : Bytes) (x : Ext)
+    (hadv : s.advertiseStrict = true) (hstrict : s.agreedStrict = true)
+    (hnames : ∀ a ∈ x.kexNames, a.startsWith "kex-strict-" = true → a = expectedMarker s.server)
+    (hok : (step T s (.recv MSG_KEXINIT p x)).err = none) :
+    (step T s (.recv MSG_KEXINIT p x)).agreedStrict = true := by
+  rw [rekey_kexinit_strict T hT s hact he hdone hexp p x hok, hadv]
+  exact scanMarkers_expected_marker _ _ _ hstrict hnames
+
 /-! ## non-vacuity and the contrast with non-strict mode -/
 
 private def kexNames (strictMarker : Bool) : List String :=
@@ -193,5 +215,18 @@ the hypothesis `agreedStrict` of the main theorem cannot be dropped -/
 example : let s := run Generated.C12.tables (init false false true true) (.recv 2 [] {} ::
       [.recv 20 [] (ext false), .recv 2 [] {}, .recv 31 [] {}, .recv 21 [] {}])
     s.initialKexDone = true ∧ s.err = none ∧ s.agreedStrict = false ∧ s.seqIn = 5 := by decide +kernel
+
+private def rekeyNoMarker : List Ev :=
+  clean ++ [Ev.rekey,
+    Ev.recv 20 [] { kexNames := ["curve25519-sha256@libssh.org"], kex := .ok (engineOf .ecdh false) },
+    Ev.recv 31 [] {}, Ev.recv 21 [] {}]
+
+/-- a full strict session with a re-exchange whose KEXINIT omits the marker: still strict, counters reset again -/
+example : (run Generated.C12.tables (init false false true true) rekeyNoMarker).err = none ∧
+    (run Generated.C12.tables (init false false true true) rekeyNoMarker).agreedStrict = true ∧
+    (run Generated.C12.tables (init false false true true) rekeyNoMarker).seqIn = 0 ∧
+    (run Generated.C12.tables (init false false true true) rekeyNoMarker).seqOut = 0 ∧
+    (run Generated.C12.tables (init false false true true) rekeyNoMarker).rx = [20, 31, 21, 20, 31, 21] := by
+  decide +kernel
 
 end PV.Props.C09
